@@ -520,6 +520,7 @@ func (s *server) ReadRows(req *btpb.ReadRowsRequest, stream btpb.Bigtable_ReadRo
 		// Reverse the lock while streaming the row out.
 		tbl.mu.RUnlock()
 		defer tbl.mu.RLock()
+		verifYield("readrows.unlocked")
 		return stream.Send(&btpb.ReadRowsResponse{Chunks: cb.chunks})
 	}
 
@@ -1470,6 +1471,7 @@ func (t *table) gc(now bigtable.Timestamp, done <-chan struct{}, force bool) {
 		// Reverse lock; check if we should exit
 		t.mu.Unlock()
 		defer t.mu.Lock()
+		verifYield("gc.unlocked")
 		select {
 		case <-done:
 			return false // server has been closed
